@@ -85,7 +85,7 @@ def netIndex (s : Sys) (k : Nat) : Option Nat := if s.net.length = 0 then none e
 
 /-- the loop's row of the generated table (`harness` = the harness' own loop over a bare endpoint) -/
 def loopInfo (name : String) : LoopInfo :=
-  (EkwVerif.Gen.RetryLoops.loops.find? (fun l => l.name == name)).getD
+  ((EkwVerif.Gen.RetryLoops.loops ++ EkwVerif.Gen.RetryLoops.recvOnlyLoops).find? (fun l => l.name == name)).getD
     { name := name, phase := .steady, feedsAck := true, callsRetry := true }
 
 /-- actions of one loop iteration in the order observed on the real code: `collect` = one
@@ -163,7 +163,9 @@ def c06Step (d : DSt) (j : Json) : DSt × Json :=
     let s0 := clearRaised d.sys a
     let s1 := (getArr j "acts").foldl (actStep a) s0
     let d1 := { d with sys := s1, syns := addSyns d.syns (synsOfPackets (s1.net.drop s0.net.length)) }
-    (d1, digest d1 s0 a)
+    -- `stops`: the model's reading of clause (b) — an iteration in which `maybe_retry` raised is the LAST one of
+    -- that loop (the raise is not swallowed); compared with what the real loop function did
+    (d1, digest d1 s0 a [("stops", toJson (s1.ep a).raised)])
   | "flush" =>
     let dropTo := (getArr j "drop_to").map asNat
     let s1 := flushAll dropTo d.sys.net.length d.sys
